@@ -39,6 +39,8 @@ class G:
         self.vars = {}          # name -> type tag
         self.funcs = {}         # name -> {"arity": n, "defaults": k, "kw": [names], "takes": type}
         self.classes = []
+        self.subclasses = {}    # name -> (builtin base, literals of that base)
+        self.funcs_helpers = set()
         self.n_inputs = 0
         self.shape = set()
         self.imports = set()
@@ -259,10 +261,31 @@ class G:
                 self.stmt(ind, scope)
         self.depth -= 1
 
+    ANNOTATION_OF = {"int": "int", "str": "str", "list": "list", "dict": "dict", "float": "float", "bool": "bool",
+                     "tuple": "tuple", "set": "set", "strlist": "list[str]", "any": "object"}
+    # a type name that does not exist: plain CPython evaluates the annotation and stops with NameError on that line
+    MISSPELT = ["integer", "strng", "Int", "string", "number", "List[int]", "boolean", "array", "Str"]
+
+    def annotation(self, t):
+        r = self.rng
+        if r.random() < 0.06:
+            self.shape.add("annotation-misspelt")
+            return r.choice(self.MISSPELT)
+        self.shape.add("annotation")
+        k = r.random()
+        if k < 0.15:
+            return "'%s'" % self.ANNOTATION_OF.get(t, "object")          # a string annotation stays a string
+        if k < 0.25:
+            return "%s | None" % self.ANNOTATION_OF.get(t, "object")
+        return self.ANNOTATION_OF.get(t, "object")
+
     def s_assign(self, ind, scope):
         e, t = self.any_expr(scope)
         n = self.pick_name(t)
-        self.emit("%s = %s" % (n, e), ind)
+        if self.rng.random() < 0.07:
+            self.emit("%s: %s = %s" % (n, self.annotation(t), e), ind)
+        else:
+            self.emit("%s = %s" % (n, e), ind)
         scope[n] = t
         if self.rng.random() < 0.05 and t == "tuple":
             self.emit("p0, p1 = %s" % n, ind)
@@ -515,8 +538,17 @@ class G:
         elif k < 0.86:
             self.emit("x1, y1 = %s, %s" % (self.int_expr(scope, 1), self.str_expr(scope, 1)), ind)
             scope["x1"], scope["y1"] = "int", "str"
-        else:
+        elif k < 0.92:
             self.emit("# a comment: ünï %s" % r.choice(["", "print('no')", "'''"]), ind)
+        elif k < 0.96:
+            # what an optimising compilation would drop
+            self.shape.add("assert")
+            self.emit(r.choice(["assert %s" % self.bool_expr(scope), "assert %s, %s" % (self.bool_expr(scope), self.str_expr(scope, 2)),
+                                "assert __debug__", "print('debug build' if __debug__ else 'optimised build')"]), ind)
+        else:
+            # an expression statement: evaluated, never shown
+            self.shape.add("expression-statement")
+            self.emit(self.any_expr(scope)[0], ind)
 
     # ----- definitions
     def def_function(self):
@@ -543,8 +575,31 @@ class G:
             sig.append("**opts")
         self.funcs[name] = {"arity": arity, "defaults": defaults, "takes": takes, "params": params, "star": star,
                             "kwonly": kwonly}
-        self.emit("def %s(%s):" % (name, ", ".join(sig)), 0)
+        returns = ""
+        if r.random() < 0.22:           # annotated signature (evaluated when the def statement runs)
+            sig = [(x.split("=")[0] + ": " + self.annotation(takes) + (" = " + x.split("=", 1)[1] if "=" in x else ""))
+                   if not x.startswith("*") and r.random() < 0.8 else x for x in sig]
+            if r.random() < 0.6:
+                returns = " -> " + self.annotation(r.choice(["int", "str", "list", "any"]))
+        decorated = r.random() < 0.07
+        if decorated:
+            self.shape.add("decorator")
+            if "noted" not in self.funcs_helpers:
+                self.funcs_helpers.add("noted")
+                self.emit("def noted(fn):", 0)
+                self.emit("    def inner(*a, **k):", 0)
+                self.emit("        return fn(*a, **k)", 0)
+                self.emit("    inner.__name__ = fn.__name__", 0)
+                self.emit("    inner.__doc__ = fn.__doc__", 0)
+                self.emit("    return inner", 0)
+            for line in r.choice([["@noted"], ["@noted"], ["@noted", "@noted"], ["@undefined_decorator"]]):
+                self.emit(line, 0)
+        self.emit("def %s(%s)%s:" % (name, ", ".join(sig), returns), 0)
         self.vars.pop(name, None)       # the name now holds a function: never printed (its repr has an address)
+        documented = r.random() < 0.15
+        if documented:
+            self.shape.add("docstring")
+            self.emit('    """%s"""' % r.choice(["Compute something.", "Return the value.\n\n    More text.\n    ", "ünï doc"]), 0)
         local = {}
         if takes != "any":
             for p in params:
@@ -592,6 +647,12 @@ class G:
         self.budget = saved_budget
         self.funcs[name]["defined"] = True
         self.shape.add("def")
+        if documented and r.random() < 0.5:
+            self.emit("print(%s.__doc__, %s.__name__)" % (name, name), 0)
+        if returns and r.random() < 0.5 and not decorated:
+            self.emit("print(sorted(%s.__annotations__), %s)" % (
+                name, r.choice(["[type(v).__name__ for v in %s.__annotations__.values()]" % name,
+                                "%s.__annotations__.get('return')" % name])), 0)
         if r.random() < 0.08:     # recursion
             self.emit("def fact(n):", 0)
             self.emit("    return 1 if n < 2 else n * fact(n - 1)", 0)
@@ -641,6 +702,20 @@ class G:
         if r.random() < 0.3:
             self.emit("%s.bump('x')" % inst, 0)
 
+    SUBCLASSES = [("Bag", "list", ["[1, 2, 3]", "[]", "[5]", "['a', 'b']"]), ("Temp", "float", ["3.5", "-0.0", "1e22"]),
+                  ("Label", "str", ["'abc'", "''", "'42'"]), ("Level", "int", ["3", "0", "-7"]),
+                  ("Pt", "tuple", ["(1, 'a')", "()", "(3,)"]), ("Reg", "dict", ["{'k': [1, 2]}", "{}"])]
+
+    def def_subclass(self):
+        r = self.rng
+        name, base, lits = r.choice(self.SUBCLASSES)
+        self.shape.add("builtin-subclass")
+        self.emit("class %s(%s):" % (name, base), 0)
+        self.emit("    def extra(self):", 0)
+        self.emit("        return '%s:' + %s.__repr__(self)" % (name, base), 0)
+        self.subclasses[name] = (base, lits)
+        self.vars.pop(name, None)
+
     def program(self):
         r = self.rng
         n_defs = r.choice([0, 1, 1, 2])
@@ -658,6 +733,8 @@ class G:
             self.def_function()
         if r.random() < 0.2:
             self.def_class()
+        if self.funcs and r.random() < 0.15:
+            self.def_subclass()
         while self.budget > 0:
             if self.funcs and r.random() < 0.25:
                 fn = r.choice(sorted(self.funcs))
@@ -730,6 +807,23 @@ class G:
             if r.random() < 0.15:
                 c["inputs"] = [r.choice(INPUT_POOL) for _ in range(r.randint(1, 3))]
             calls.append(c)
+        # look-alikes one after the other: a plain value and an instance of the program's own subclass of that type with
+        # the same text (the grader builds it from the student's class: "scope": "student"), in either order
+        takers = [f for f in sorted(self.funcs) if self.funcs[f]["arity"] - self.funcs[f]["defaults"] <= 1 <= self.funcs[f]["arity"]
+                  and self.funcs[f]["takes"] != "depth"]
+        for name, (base, lits) in sorted(self.subclasses.items()):
+            if not takers:
+                break
+            fn = r.choice(takers)
+            lit = r.choice(lits)
+            pair = [{"fn": fn, "args": [lit], "kwargs": {}, "scope": "student"},
+                    {"fn": fn, "args": ["%s(%s)" % (name, lit)], "kwargs": {}, "scope": "student"}]
+            if r.random() < 0.4:
+                pair.reverse()
+            if r.random() < 0.5:
+                pair.append(dict(pair[0]))
+            calls += pair
+            self.shape.add("look-alike-calls")
         return calls
 
 
